@@ -20,6 +20,7 @@ INVARIANT Size
 INVARIANT Elitism
 INVARIANT Monotone
 INVARIANT BudgetEps
+INVARIANT BudgetSwarm
 CHECK_DEADLOCK FALSE
 """
 
@@ -31,7 +32,8 @@ class Runs(Part):
     coverage_strict = False
 
     def mc(self, ctx):
-        plan = [(2, "0, 1", "0, 1", 2, 3, "nsga2"), (1, "0, 1, 2", "0", 3, 3, "nsga2"), (2, "0, 1, 2", "0, 1", 2, 2, "epsmoea")]
+        plan = [(2, "0, 1", "0, 1", 2, 3, "nsga2"), (1, "0, 1, 2", "0", 3, 3, "nsga2"), (2, "0, 1, 2", "0, 1", 2, 2, "epsmoea"),
+                (2, "0, 1", "0, 1", 2, 3, "swarm")]
         if not ctx.quick:
             plan += [(2, "0, 1, 2", "0, 1", 2, 4, "nsga2"), (1, "0, 1, 2, 3", "0", 3, 4, "nsga2"), (2, "0, 1", "0, 1", 3, 4, "nsga2"), (1, "0, 1, 2, 3", "0", 3, 6, "nsga2"),
                      (2, "0, 1", "0, 1", 3, 2, "epsmoea")]
